@@ -256,6 +256,10 @@ pub struct Gen<'a, 'b> {
     in_child: bool,
     enums_in_record: usize,
     prefer_derived: bool,
+    /// element struct to use for the next struct array (strata that combine features)
+    prefer_elem: Option<String>,
+    /// an extra array item (element kind, shape) for the next record
+    extra_array: Option<(usize, usize)>,
 }
 
 fn maxv(w: u32) -> u64 {
@@ -271,7 +275,7 @@ const ELEM_WIDTHS: &[u32] = &[8, 8, 16, 24, 32, 40, 48, 56, 64];
 
 impl<'a, 'b> Gen<'a, 'b> {
     pub fn new(s: &'a mut Src<'b>, p: Profile) -> Self {
-        Gen { s, p, decls: vec![], nfield: 0, ndecl: 0, enums: vec![], structs: vec![], customs: vec![], strata: vec![], in_struct: false, in_child: false, enums_in_record: 0, prefer_derived: false }
+        Gen { s, p, decls: vec![], nfield: 0, ndecl: 0, enums: vec![], structs: vec![], customs: vec![], strata: vec![], in_struct: false, in_child: false, enums_in_record: 0, prefer_derived: false, prefer_elem: None, extra_array: None }
     }
 
     fn fid(&mut self) -> String {
@@ -540,6 +544,13 @@ impl<'a, 'b> Gen<'a, 'b> {
     }
 
     fn pick_struct_for(&mut self, need_min1: bool, need_self_delim: bool, for_array: bool) -> Option<StructInfo> {
+        if for_array || self.prefer_elem.is_some() {
+            if let Some(id) = self.prefer_elem.take() {
+                if let Some(si) = self.structs.iter().find(|s| s.id == id) {
+                    return Some(si.clone());
+                }
+            }
+        }
         if for_array && self.prefer_derived {
             let d: Vec<StructInfo> = self.structs.iter().filter(|s| s.derived_static).cloned().collect();
             if !d.is_empty() {
@@ -733,6 +744,11 @@ impl<'a, 'b> Gen<'a, 'b> {
                         }
                     }
                 }
+            }
+        }
+        if let Some(f) = self.extra_array.take() {
+            if let Some(it) = self.gen_array(false, Some(f)) {
+                items.push(it);
             }
         }
         // payload position
@@ -1348,10 +1364,21 @@ pub fn gen_desc(stream: &[u32], p: &Profile, stratum: Option<usize>, big: bool) 
         g.gen_custom();
     }
     let nstruct = g.s.below(3);
-    for i in 0..nstruct {
+    let opt_in_elem = p.optional && st.map(|x| (16..22).contains(&x)).unwrap_or(false) && g.s.below(2) == 0;
+    for i in 0..nstruct.max(if opt_in_elem { 1 } else { 0 }) {
         // struct-element array strata need structs first; strata for arrays inside structs too
-        let sst = if i == 0 && st.map(|x| x < 22 && g.s.below(3) == 0).unwrap_or(false) { st } else { None };
+        let sst = if i == 0 && (opt_in_elem || st.map(|x| x < 22 && g.s.below(3) == 0).unwrap_or(false)) { st } else { None };
         g.gen_struct(sst);
+        if i == 0 && opt_in_elem {
+            // the struct with the optional field becomes the element of a size-delimited array in the first packet:
+            // its encoded_len then feeds a size field
+            let id = g.structs.last().map(|s| s.id.clone());
+            if g.structs.last().map(|s| s.min >= 1 && s.self_delim).unwrap_or(false) {
+                g.prefer_elem = id;
+                g.extra_array = Some((3, 2));
+                g.strata.push("opt.in-size-delimited-array-element".into());
+            }
+        }
     }
     if p.struct_inherit && g.s.below(5) == 0 {
         g.gen_struct_family();
